@@ -242,6 +242,15 @@ func on01(r *rng.R, prob, max float64) float64 {
 	return 0
 }
 
+func indexOf(xs []string, x string) int {
+	for i, y := range xs {
+		if y == x {
+			return i
+		}
+	}
+	return 0
+}
+
 // StockAutoVarNames are command names of the command_config.json shipped with poryscript.
 var StockAutoVarNames = []string{"specialvar", "checkcoins", "random", "checkitem", "getpartysize", "choosecontestmon", "msgbox", "multichoice", "yesnobox"}
 
@@ -268,6 +277,37 @@ func File(r *rng.R, c *Config) *model.File {
 				g.f.AutoVars[name] = model.AutoVar{ArgPos: r.Intn(3)}
 			}
 			g.autoCmds = append(g.autoCmds, name)
+		}
+	}
+	if ac := r.Fork("avcorner"); c.AutoVars {
+		vars := []string{"VAR_RESULT", "VAR_0x8004", "VAR_TEMP_1"}
+		if len(g.autoCmds) >= 2 && ac.P(0.12) {
+			// two AutoVar commands whose names differ only in letter case, configured differently
+			// (seeded change C11-26 folded the names to lower case)
+			a, old := g.autoCmds[0], g.autoCmds[1]
+			b := strings.ToUpper(a[:1]) + a[1:]
+			av := g.f.AutoVars[old]
+			delete(g.f.AutoVars, old)
+			if av == g.f.AutoVars[a] {
+				if av.ArgPos >= 0 {
+					av = model.AutoVar{VarName: vars[ac.Intn(3)], ArgPos: -1}
+				} else {
+					av.VarName = vars[(indexOf(vars, av.VarName)+1+ac.Intn(2))%3]
+				}
+			}
+			g.f.AutoVars[b] = av
+			g.autoCmds[1] = b
+		}
+		if ac.P(0.08) {
+			// a script constant spelled like a configured result var: the configuration names
+			// the game's variable, not the script's constant (seeded change C11-27)
+			for _, name := range g.autoCmds {
+				if av := g.f.AutoVars[name]; av.ArgPos < 0 && av.VarName != "" {
+					other := vars[(indexOf(vars, av.VarName)+1+ac.Intn(2))%3]
+					g.f.Consts = append(g.f.Consts, model.ConstDef{Name: av.VarName, Val: []string{other}})
+					break
+				}
+			}
 		}
 	}
 	if ar := r.Fork("arithcfg"); ar.P(0.3) {
